@@ -133,6 +133,7 @@ static void log_event(int kind, int tid, int a, long b) {
 }
 
 static inline int controlled(void) { return G.active && self != NULL; }
+static __thread int in_callback;      /* see vs_point */
 
 static VMutex *mtx(void *addr) {
     for (int i = 0; i < G.nm; i++) if (G.M[i].addr == addr) return &G.M[i];
@@ -158,7 +159,7 @@ static int enabled(const VThread *t) {
     case ST_LOCK: return t->m->owner < 0 || t->m->owner == t->id;
     case ST_WAITCV: case ST_FUTEX: return is_timeout_alt(t);
     case ST_JOIN: return G.T[t->target].state == ST_FINISHED;
-    case ST_PRED: return t->pred(t->predarg) != 0;
+    case ST_PRED: { in_callback++; int r = t->pred(t->predarg) != 0; in_callback--; return r; }
     default: return 0;
     }
 }
@@ -176,7 +177,7 @@ static uint64_t fingerprint(void) {
     for (int i = 0; i < G.nc; i++) { h = vs_mix(h, G.C[i].nw); for (int k = 0; k < G.C[i].nw; k++) h = vs_mix(h, G.C[i].w[k]); }
     h = vs_mix(h, (uint64_t)G.clock_ns + (uint64_t)G.spurious_left + ((uint64_t)G.create_faults_left << 8));
     for (int i = 0; i < VS_NCELL; i++) if (G.cell[i]) h = vs_mix(h, ((uint64_t)i << 48) ^ (uint64_t)G.cell[i]);
-    if (G.opt.state_cb) h = vs_mix(h, G.opt.state_cb());
+    if (G.opt.state_cb) { in_callback++; h = vs_mix(h, G.opt.state_cb()); in_callback--; }
     return h ? h : 1;
 }
 
@@ -308,7 +309,9 @@ static void point(VThread *me) { me->state = ST_READY; sched(me); }
 /* ------------------------------------------------------------------ public harness API */
 int vs_active(void) { return G.active; }
 int vs_self(void) { return controlled() ? self->id : -1; }
-void vs_point(int tag) { if (controlled()) { self->tag = tag; point(self); } }
+/* Harness callbacks (state fingerprint, blocking predicates, park hook) run INSIDE the scheduler and may read std::atomic members of the object under test; in the
+ * hooked flavour such a read arrives here as a scheduling point, which must be ignored. */
+void vs_point(int tag) { if (controlled() && !in_callback) { self->tag = tag; point(self); } }
 void vs_event(int kind, int a, long b) { if (controlled()) log_event(kind, self->id, a, b); }
 long vs_cell_get(int i) { return G.cell[i]; }
 void vs_cell_set(int i, long v) { G.cell[i] = v; }
@@ -397,7 +400,7 @@ static int cond_wait_common(pthread_cond_t *cv, pthread_mutex_t *mu, int timed, 
     VThread *me = self; VCond *c = cnd(cv); VMutex *m = mtx(mu);
     if (m->owner != me->id) fatal_outcome(VS_OUT_ORACLE, "t%d waits on a condition variable without owning the mutex", me->id);
     point(me);                                  /* the window between predicate evaluation and blocking */
-    if (G.opt.park_cb) G.opt.park_cb(me->id);   /* the thread still owns the mutex: the harness may read what the waiter has just published */
+    if (G.opt.park_cb) { in_callback++; G.opt.park_cb(me->id); in_callback--; }   /* the thread still owns the mutex: the harness may read what the waiter has just published */
     TSAN_REL(mu);
     m->count = 0; m->owner = -1;
     c->w[c->nw++] = me->id;
